@@ -98,6 +98,11 @@ var badSets = [][][]silx.Matcher{
 	{{{'e', "", "1"}}},        // empty label name
 	{{{'e', "a", "1"}}, {}},   // second set empty (direct Set only)
 	{{{'e', "a", ""}, {'r', "b", "x|.*"}}}, // all matchers match empty
+	// a valid first set, a LATER set whose matchers all match the empty string (sets are OR-ed: it mutes everything)
+	{{{'e', "a", "1"}}, {{'r', "env", ".*"}, {'e', "team", ""}}},
+	{{{'e', "a", "1"}}, {{'e', "c", "z"}}, {{'e', "b", ""}}},
+	{{{'n', "a", "1"}, {'e', "c", "z"}}, {{'r', "b", "x|.*"}}},
+	{{{'x', "b", "x.*"}, {'r', "a", ".+"}}, {{'e', "c", "z"}}, {{'r', "b", ".*"}, {'r', "c", "|z"}}},
 }
 
 func (g *gen) createLine(kind string) string {
@@ -166,18 +171,26 @@ func (g *gen) editLine(kind string) string {
 		// the in-process read-modify-write edit: QueryOne(QIDs(id)), change the returned object, Set it
 		kind = "setq"
 	}
+	if m := g.stored(id); kind == "post" && m != nil && r.IntN(3) == 0 {
+		// the client edit through the API: the matchers of GET /api/v2/silence/{id} are sent back as returned
+		// (the line names the stored ones), only times / comment change
+		kind, sets = "postg", m.Sets[:1]
+	}
 	return silx.SetLine(kind, 0, g.now, id, ss, silx.I64(end), cm, sets, big)
 }
 
 func (g *gen) invalidLine(kind string) string {
 	r := g.r
 	sets := hx.Pick(r, badSets)
-	if kind == "post" && len(sets) > 1 {
-		sets = sets[:1]
+	if len(sets) > 1 {
+		kind = "set" // several matcher sets: Silences.Set only (the v2 model carries one set)
 	}
 	id := "-"
 	if r.IntN(3) == 0 {
 		id = g.pickID()
+	}
+	if kind == "set" && id != "-" && r.IntN(2) == 0 {
+		kind = "setq"
 	}
 	start := g.now + int64(r.IntN(3))*grid
 	return silx.SetLine(kind, 0, g.now, id, silx.I64(start), silx.I64(start+int64(1+r.IntN(4))*grid), silx.Comment(r), sets, false)
